@@ -1,4 +1,4 @@
-/-! feasibility probe (throw-away): functional semantics, saturation toolkit, profile-based inclusion -/
+/-! # L0/L1 basics: trees, tree automata, functional run semantics `reach`, set-like list toolkit, profile-based inclusion reference -/
 namespace Vata
 
 inductive Tree where
@@ -34,6 +34,17 @@ end
 
 def accepting (A : TA) (s : List Nat) : Bool := s.any (fun q => A.final.contains q)
 def accepts (A : TA) (t : Tree) : Bool := accepting A (reach A t)
+
+
+theorem mem_post' {A : TA} {f : Nat} {ss : List (List Nat)} {q : Nat} :
+    q ∈ post A f ss ↔ ∃ r, r ∈ A.rules ∧ r.sym = f ∧ matchKids r.kids ss = true ∧ r.parent = q := by
+  simp only [post, List.mem_map, List.mem_filter, Bool.and_eq_true, beq_iff_eq]
+  constructor
+  · rintro ⟨r, ⟨h1, h2, h3⟩, h4⟩; exact ⟨r, h1, h2, h3, h4⟩
+  · rintro ⟨r, h1, h2, h3, h4⟩; exact ⟨r, ⟨h1, h2, h3⟩, h4⟩
+
+theorem mem_post {A : TA} {f : Nat} {ss : List (List Nat)} {q : Nat} :
+    q ∈ post A f ss ↔ ∃ r, r ∈ A.rules ∧ r.sym = f ∧ matchKids r.kids ss = true ∧ r.parent = q := mem_post'
 
 theorem reachL_eq_map (A : TA) (ts : List Tree) : reachL A ts = ts.map (reach A) := by
   induction ts with
